@@ -262,7 +262,8 @@ def main(tier):
                                    "cli": "pyscn analyze --json --no-open --select complexity --min-complexity 2 <project>"}}]
     ck.cov.update({
         "evaluations": stats["section_comparisons"] + stats["per_file_comparisons"] + stats["mcp_hook_comparisons"] + stats["race_runs"]
-                       + sum(stats.get("mcp_comparisons", {}).values()) + sum(stats.get("mcp_error_cases", {}).values()),
+                       + sum(stats.get("mcp_comparisons", {}).values()) + sum(stats.get("mcp_error_cases", {}).values())
+                       + sum(stats.get("mcp_history", {}).get("calls", {}).values()),
         "distinct_nontrivial": stats["subsets"] + stats["section_comparisons"] + sum(stats.get("mcp_nonempty_findings", {}).values()),
         "rule": "generated project (generated control-flow modules, classes, an import cycle, a duplicated class file): combined report vs each "
                 "--select run per section; per-file rows of complexity/dead code/CBO/LCOM for every file alone, reversed order and random subsets "
@@ -273,12 +274,26 @@ def main(tier):
                 "values present in the project, min_lines, min_cbo, max_results), directory / sub-directory / single-file / relative paths, "
                 "five configuration scenarios (default, .pyscn.toml found from the server's directory, only from the path, PYSCN_CONFIG, "
                 "config that sets the quick-filter keys), and per tool missing / empty / non-Python paths and invalid option values (both "
-                "front ends must reject or both accept with equal findings; no crash); MCP analyze_code through the in-process hook; "
+                "front ends must reject or both accept with equal findings; no crash); call HISTORIES (harness/c20hist.py): sequences of tool "
+                "calls answered one after the other by ONE server process that move between projects with observably different configurations "
+                "(A: .pyscn.toml X, a sub-directory of A, B0: no configuration file, B1: empty .pyscn.toml, C: .pyscn.toml Y, D: pyproject.toml "
+                "[tool.pyscn] Z; the same sources everywhere, X/Y/Z/default differ in risk thresholds, exclude_patterns, [cbo]/[lcom] options, "
+                "min_lines / similarity / min_complexity / min_severity filters so that every tool's findings differ between any two of them — "
+                "measured, input_distribution.mcp_history.distinct_findings_per_tool), EVERY answer compared with the command line run for that "
+                "call's path and options alone: per tool the named histories A,B0 / B0,A,B0 / A,C / C,A / B0,A-pkg,B0 / D,B0 on "
+                "fresh servers, an Euler circuit through all 36 ordered pairs of targets (self loops included, then with other options) in "
+                "overlapping pieces, and on one path an Euler circuit through all ordered pairs of option / output-mode variants; mixed "
+                "tools: an Euler circuit through all 49 ordered pairs of tools with the targets on a circuit through all ordered pairs of "
+                "different targets and option/output-mode variants per step, on a server without and on a server with PYSCN_CONFIG (then "
+                "--config on the command line); a failing history is cut at its first wrong answer, shrunk (call alone, one earlier call + the "
+                "call, greedy removal) and replayed through a `{ printf ..; sleep ..; printf ..; } | pyscn-mcp` line; "
+                "MCP analyze_code through the in-process hook; "
                 "-race build of the CLI under several GOMAXPROCS",
         "input_distribution": stats, "strict_order": STRICT_ORDER, "disagreements_checked": len(ck.violations),
     })
     ck.trusted += ["Coq 8.16.1 kernel", "data-race freedom is tested with the Go race detector, not proved (Go memory model and scheduler not modelled)",
                    "MCP side: the real cmd/pyscn-mcp binary driven over stdio JSON-RPC (initialize + tools/call); the in-process hook (op mcp) only for analyze_code",
+                   "call histories are sampled (all ordered pairs of targets per tool, all ordered pairs of tools), not all sequences; the calls of a history are sequential (concurrent calls on one server are not compared)",
                    "MCP vs CLI equality is decided on projected findings (rows, pairs, scores), not on the presentation (field names, order, wording)",
                    "models Service/Pipeline.v, Service/Isolation.v, Cli/Frontends.v"]
     ck.finish(assumptions=["while STRICT_ORDER is False, list order and the value fields named in UNSTABLE_KEYS are not compared (they differ between two runs of the same command: property C05)"])
